@@ -15,6 +15,19 @@ CLAIMS = {
              'A universally quantified statement over 2^12..2^20 immediates x 32^3 registers needs a proof-style argument, not samples.',
         note='Trusted: CPython ast; the transfer functions of bbverif/bitdom.py; the oracle table (bbverif/oracle.py); Python eval/int mapping a literal '
              'token to the integer it spells. Constructs outside the abstract domain end the run with ANALYSIS-ERROR (exit 2), never a pass.'),
+    'C02': dict(
+        category='proof', design='DESIGN.md §4 C02, §3.2',
+        technique='bit-provenance abstract interpretation of the c.* encoders and constraint closures vs. RVC oracle table; exhaustive reverse walk of all 65 536 halfwords over the derived closed forms',
+        text='Forward: for the 27 compressed bindings the derived layout, constant bits and legal operand sets equal the RVC table for all operand values. '
+             'Reverse: the images of the derived closed forms are compared over all 65 536 halfwords with an independent RV32C decoder written from the ISA listing, '
+             'so accepted operand tuples and legal non-hint encodings correspond one-to-one. The quantifier is finite but far beyond what tests pin; the derivation is symbolic in every operand bit.',
+        note='Trusted: CPython ast; bbverif/bitdom.py transfer functions; the RVC table and rvc_decode in bbverif/oracle.py. The repository is never executed: the images enumerated are those of the analysis\' own closed forms.'),
+    'C06': dict(
+        category='proof', design='DESIGN.md §4 C06, §3.2',
+        technique='partitioned interval x congruence abstract interpretation of every encoder guard; accepted set == legal set per operand; mask-after-guard dominance rule',
+        text='For every operand of the 93 bindings the accepted set (intervals, congruences, alias windows, constraint closures) is derived from the guards on every path and compared, both inclusions, '
+             'with the legal set from the ISA tables; every mask of an operand-derived value must be dominated by a range guard that fits the masked width. Off-by-one bounds, dropped scale checks and wrapped operands are decided for all values.',
+        note='Trusted: CPython ast; bbverif/bitdom.py; operand ranges in bbverif/oracle.py (jalr uses the documented, stricter even-offset set). A guard placed on already-extracted bits is over-approximated and then reported or refused (exit 2), never passed.'),
 }
 
 NOT_YET = 'check not built yet (framework under construction)'
